@@ -71,6 +71,12 @@ Definition call_check (o : callobs) : list nat :=
         (match co_parent_end o with Some tp => if Z.ltb tp t then [1505] else [] | None => [] end)
     end.
 
+(* a calling act that a client action on its own process closed while the child was still running (skip / abort of a
+   sibling, an error beside it): the child's late return finds the act closed and must not write to it again *)
+Definition forced_check (o : callobs) : list nat :=
+  (if co_inputs_ok o then [] else [1504]) ++
+  match co_act_ends o with [_] => [] | _ => [1507] end.
+
 (* ---------- C17: what is left of a process ---------- *)
 Record retobs := {
   ro_keep : bool;                 (* keep_processes *)
